@@ -64,7 +64,7 @@ def cases(tier, seed):
         out.append({"k": "tridiag", "fam": fam, "n": n, "b": b, "init": init, "dt": dt})
     # (n = 24 and 40 lie above every built-in iteration constant (20 quadrature / 15 preconditioner steps) and below the rank bound)
     for fam, n, b, method in itertools.product(["geom", "unif", "clustered", "repeated"], [3, 5, 8, 24] + ([13, 20, 40] if tier == "thorough" else []), [[], [2]],
-                                               ["root", "root_inv", "diagonalization"]):
+                                               ["root", "root_inv", "root_inv_vectors", "diagonalization"]):
         for budget in ("full", "half"):
             out.append({"k": "consumer", "fam": fam, "n": n, "b": b, "method": method, "budget": budget})
     # rank-deficient matrices in single precision: the jittered T has eigenvalues of both signs around zero, which the post-processing
@@ -198,6 +198,14 @@ def run_consumer(case, feat, key):
     elif method == "root_inv":
         got = call(lambda: op.root_inv_decomposition(method="lanczos").root.to_dense())
         target = torch.linalg.inv(A)
+    elif method == "root_inv_vectors":
+        # several supplied start vectors: the library runs one Lanczos process per vector and keeps the one that solves the test vectors best
+        g = RA.gen(f"civ{n}", env.SEED)
+        iv = torch.randn(*b, n, 3, generator=g, dtype=torch.float64).to(cdt)
+        tv = torch.randn(*b, n, 2, generator=g, dtype=torch.float64).to(cdt)
+        got = call(lambda: op.root_inv_decomposition(initial_vectors=iv, test_vectors=tv, method="lanczos").root.to_dense())
+        target = torch.linalg.inv(A)
+        method = "root_inv"
     else:
         got = call(lambda: op.diagonalization(method="lanczos"))
         target = A
